@@ -305,7 +305,7 @@ fn rbext_case<const N: usize>(pos: usize, len: usize) -> String {
     }
 }
 
-fn adapter(chip: u32, len: u8, off: u8, seed: u64) -> String {
+fn adapter(chip: u32, len: u8, off: u8, seed: u64, continuous: bool) -> String {
     use lora_modulation::{Bandwidth, BaseBandModulationParams, CodingRate, SpreadingFactor};
     use lora_phy::lorawan_radio::LorawanRadio;
     use lorawan_device::async_device::radio::{PhyRxTx, RfConfig, RxConfig, RxMode, RxStatus};
@@ -318,7 +318,7 @@ fn adapter(chip: u32, len: u8, off: u8, seed: u64) -> String {
                 bb: BaseBandModulationParams::new(SpreadingFactor::_7, Bandwidth::_125KHz, CodingRate::_4_5),
                 max_payload_len: 255,
             },
-            mode: RxMode::Single { ms: 0 },
+            mode: if continuous { RxMode::Continuous } else { RxMode::Single { ms: 0 } },
         };
         let arm = |w: &Shared| {
             let mut m = w.borrow_mut();
@@ -336,23 +336,37 @@ fn adapter(chip: u32, len: u8, off: u8, seed: u64) -> String {
             }
         };
         let mut rb: RadioBuffer<256> = RadioBuffer::new();
+        // the caller's buffer holds something already (the tail of an earlier, longer frame)
+        for (i, b) in rb.as_mut().iter_mut().enumerate() {
+            *b = caller_byte(i);
+        }
         let res = if chip == 126 {
             let lora = block_on(lora_phy::LoRa::new(mk126(&w), true, FakeDelay(w.clone()))).unwrap();
             let mut radio: LorawanRadio<_, _, 22> = lora.into();
             block_on(radio.setup_rx(cfg)).unwrap();
             arm(&w);
-            block_on(radio.rx_single(rb.as_mut())).map_err(|_| ())
+            if continuous {
+                block_on(radio.rx_continuous(rb.as_mut())).map(|(n, q)| RxStatus::Rx(n, q)).map_err(|_| ())
+            } else {
+                block_on(radio.rx_single(rb.as_mut())).map_err(|_| ())
+            }
         } else {
             let lora = block_on(lora_phy::LoRa::new(mk127(&w), true, FakeDelay(w.clone()))).unwrap();
             let mut radio: LorawanRadio<_, _, 20> = lora.into();
             block_on(radio.setup_rx(cfg)).unwrap();
             arm(&w);
-            block_on(radio.rx_single(rb.as_mut())).map_err(|_| ())
+            if continuous {
+                block_on(radio.rx_continuous(rb.as_mut())).map(|(n, q)| RxStatus::Rx(n, q)).map_err(|_| ())
+            } else {
+                block_on(radio.rx_single(rb.as_mut())).map_err(|_| ())
+            }
         };
         match res {
             Ok(RxStatus::Rx(n, _q)) => {
+                // the rest of the caller's buffer is left as it was
+                let tail_ok = rb.as_mut().iter().enumerate().skip(n).all(|(i, b)| *b == caller_byte(i));
                 rb.set_pos(n);
-                format!("ok:{} {}", n, hex(rb.as_mut_for_read()))
+                format!("ok:{} {} {}", n, hex(rb.as_mut_for_read()), if tail_ok { "tail-ok" } else { "tail-MODIFIED" })
             }
             Ok(RxStatus::RxTimeout) => "timeout".into(),
             Err(()) => "err".into(),
@@ -436,7 +450,7 @@ pub fn eval(op: &str) -> String {
                 _ => "bad-op".into(),
             }
         }
-        ["C18", "adapter", chip, len, off, seed] => {
+        ["C18", kind @ ("adapter" | "adapterc"), chip, len, off, seed] => {
             let (Ok(chip), Ok(len), Ok(off), Ok(seed)) = (chip.parse::<u32>(), len.parse::<u8>(), off.parse::<u8>(), seed.parse::<u64>())
             else {
                 return "bad-op".into();
@@ -444,7 +458,7 @@ pub fn eval(op: &str) -> String {
             if chip != 126 && chip != 127 {
                 return "bad-op".into();
             }
-            adapter(chip, len, off, seed)
+            adapter(chip, len, off, seed, *kind == "adapterc")
         }
         _ => "bad-op".into(),
     }
@@ -612,6 +626,9 @@ pub fn run(tier: &str, seed: u64, dir: &str) {
             for off in [0u8, 1, 200, 255] {
                 let op = format!("C18 adapter {} {} {} {}", chip, len, off, rng.below(256));
                 sink.case(&op, &eval(&op), &format!("adapter-sx{}", chip), true);
+                // the Class C path of the adapter (rx_continuous)
+                let op = format!("C18 adapterc {} {} {} {}", chip, len, off, rng.below(256));
+                sink.case(&op, &eval(&op), &format!("adapter-continuous-sx{}", chip), true);
             }
         }
     }
